@@ -132,6 +132,7 @@ def render(ir, n):
     out = [PRELUDE, EXTRA]
     e = out.append
     e("fn spike(m, kind) { var big = []; var j = 0; while j < m { big.push(mk(kind, j)); j = j + 1; } return big.len(); }")
+    e("fn natid(x) { return x; }")
     e("fn natshow(v) { if type(v) == Num || type(v) == String || type(v) == Bool || v == nil { return v; } return type(v); }")
     e("fn run(n) {")
     e("  var acc = 0;")
@@ -178,7 +179,10 @@ def nat_exprs(seed):
             out.append("%s.%s(%s)" % (r, rng.choice(c10.NAT_METHODS), ", ".join(rng.choice(c10.NAT_ARGS) for _ in range(rng.weighted([(3, 0), (5, 1), (3, 2), (1, 3)])))))
         else:
             out.append(rng.choice(c10.NAT_OPS).format(r=r, a=rng.choice(c10.NAT_ARGS), b=rng.choice(c10.NAT_ARGS), n=rng.choice(c10.NAT_POS)))
-    return out
+    # a closure literal would be a fresh object whose address appears in the text of error messages and interpolations: one more
+    # interned string per round, at addresses that depend on what the runner process did before - the history would no longer be a
+    # function of the seed (the determinism selftest caught exactly that). A declared function is one object for the whole run.
+    return [x.replace("|x| { return x; }", "natid") for x in out]
 
 
 N_NAT = {"quick": 100, "thorough": 6000}
